@@ -139,7 +139,8 @@ func TestC10(t *testing.T) {
 }
 
 // ---- admission (PreExecutor.PreExecute reads the wall clock): expiries are
-// generated as offsets from "now" with >= 10 s clearance from every boundary.
+// generated as offsets from "now", including the seconds right at both ends of
+// the validity interval; the wall clock is bracketed around the call.
 
 type c10aCase struct {
 	WindowS        int64 // seconds
@@ -171,11 +172,25 @@ func c10aRun(c c10aCase, st *vstat.Stats) error {
 	if c.ActStartFuture && c.NActions > 0 {
 		tx.Actions[0].Start = now + 3_600_000
 	}
-	// verdict at "now" and at now+30s must agree, otherwise the case is too close to a boundary
+	// Bracketing: the admission call reads the wall clock somewhere between
+	// `now` (taken above) and `after` (taken when it has returned). Every
+	// time-dependent clause of the predicate holds on an interval of time, and
+	// the intervals are >= 30 s wide, so if the predicate gives the same verdict
+	// at both ends it has that verdict for the whole call; otherwise the case
+	// straddles a boundary and is skipped (counted).
+	parent := map[string][]byte{
+		string(fixture.BalanceKey(0)): binary.BigEndian.AppendUint64(nil, 1<<50),
+		string(fixture.FeeKey()):      internalfees.NewManager(nil).Bytes(),
+	}
+	pe := chain.NewPreExecutor(fixture.RuleFactory{R: rules}, noReplayWindow(), fixture.Metadata(), fixture.BalanceHandler())
+	built := tx.Build()
+	now = time.Now().UnixMilli()
+	err := pe.PreExecute(ctx, nil, state.ImmutableStorage(parent), built)
+	after := time.Now().UnixMilli()
 	w1, r1 := refmodel.PreCheck(rules, tx, now)
-	w2, _ := refmodel.PreCheck(rules, tx, now+30_000)
-	if w1 != w2 {
-		st.Skip("admission-too-close-to-boundary")
+	w2, _ := refmodel.PreCheck(rules, tx, after)
+	if w1 != w2 || after < now || after-now > 20_000 {
+		st.Skip("admission-straddles-boundary")
 		st.Case(false, "", "skipped-boundary")
 		return nil
 	}
@@ -183,15 +198,12 @@ func c10aRun(c c10aCase, st *vstat.Stats) error {
 	if !w1 {
 		lbl = "refuse:" + r1
 	}
+	if c.OffsetS >= 0 && c.OffsetS <= 1 || c.OffsetS >= c.WindowS && c.OffsetS <= c.WindowS+1 {
+		lbl += ":within-1s-of-boundary"
+	}
 	raw, _ := json.Marshal(c)
 	st.Case(true, string(raw), lbl)
 	st.Sample(true, map[string]any{"case": c, "expect": lbl})
-	parent := map[string][]byte{
-		string(fixture.BalanceKey(0)): binary.BigEndian.AppendUint64(nil, 1<<50),
-		string(fixture.FeeKey()):      internalfees.NewManager(nil).Bytes(),
-	}
-	pe := chain.NewPreExecutor(fixture.RuleFactory{R: rules}, noReplayWindow(), fixture.Metadata(), fixture.BalanceHandler())
-	err := pe.PreExecute(ctx, nil, state.ImmutableStorage(parent), tx.Build())
 	if w1 && err != nil {
 		return fmt.Errorf("admission refused (%v) a tx that is executable now", err)
 	}
@@ -202,7 +214,7 @@ func c10aRun(c c10aCase, st *vstat.Stats) error {
 }
 
 func TestC10Admission(t *testing.T) {
-	st := vstat.New(t, "C10", "admission: PreExecutor.PreExecute at the wall clock with expiries >= 10 s inside / outside the validity interval, misaligned expiries, wrong chain, action counts around the limit, expired auth / not yet activated action; verdict must equal the predicate evaluated now (cases whose verdict could flip within 30 s are skipped and counted)")
+	st := vstat.New(t, "C10", "admission: PreExecutor.PreExecute at the wall clock with expiries well inside / outside the validity interval and in the seconds at both of its ends, misaligned expiries, wrong chain, action counts around the limit, expired auth / not yet activated action; the wall clock is read before and after the call and the verdict must equal the predicate whenever the predicate is the same at both readings (cases that straddle a boundary are skipped and counted)")
 	rapid.Check(t, func(rt *rapid.T) {
 		c := c10aCase{
 			WindowS:        rapid.SampledFrom([]int64{30, 60, 300}).Draw(rt, "window"),
@@ -212,7 +224,7 @@ func TestC10Admission(t *testing.T) {
 			ActStartFuture: rapid.IntRange(0, 9).Draw(rt, "actStartFuture") == 0,
 		}
 		c.NActions = rapid.IntRange(int(c.MaxActions)-1, int(c.MaxActions)+1).Draw(rt, "nactions")
-		c.OffsetS = rapid.SampledFrom([]int64{-3600, -60, -40, 12, 15, c.WindowS / 2, c.WindowS - 12, c.WindowS + 45, c.WindowS + 3600}).Draw(rt, "offset")
+		c.OffsetS = rapid.SampledFrom([]int64{-3600, -60, -40, -1, 0, 0, 1, 2, 12, c.WindowS / 2, c.WindowS - 1, c.WindowS, c.WindowS, c.WindowS + 1, c.WindowS + 2, c.WindowS + 45, c.WindowS + 3600}).Draw(rt, "offset")
 		if rapid.IntRange(0, 5).Draw(rt, "misalign") == 0 {
 			c.Misalign = rapid.Int64Range(1, 999).Draw(rt, "mis")
 		}
